@@ -382,6 +382,9 @@ func (gr *reader) OpenFile(id uint32) (io.ReaderAt, error) {
 		}
 
 		// Read and cache
+		if chunkSize < 0 {
+			return fmt.Errorf("invalid chunk size %d (offset:%d)", chunkSize, chunkOffset)
+		}
 		b := gr.bufPool.Get().(*bytes.Buffer)
 		b.Reset()
 		b.Grow(int(chunkSize))
